@@ -280,6 +280,7 @@ structure DState where
   rg : Reg := { max := 9, min := 6 }
   tb : Table := Table.new 0 {}
   mt : SM := SM.new 0
+  saved : Option Game := none   -- `hop save`: the checkpoint a later `hop rollback` returns to
 
 def stepLine (s : DState) (line : String) : DState × String :=
   match (line.trimAscii.toString.splitOn " ").filter (· != "") with
@@ -318,6 +319,11 @@ def stepLine (s : DState) (line : String) : DState × String :=
     | some g =>
       let v := if who == "obs" then g.asObserver else g.asPlayer (who.toNat?.getD 0)
       (s, gameStr "view" v "none")
+    | none => (s, "bad")
+  | ["hop", "save"] => ({ s with saved := s.game }, "ok")
+  | ["hop", "rollback"] =>   -- LoadState of the checkpoint into the live game: the hand is the checkpoint again (as rebuilt from its JSON)
+    match s.saved with
+    | some g => ({ s with game := some g.hop }, gameStr "st" g.hop "none")
     | none => (s, "bad")
   | "hop" :: _ =>   -- "hop", "hop json", "hop load": the model's save / restore is the same function for all three
     match s.game with
